@@ -337,9 +337,12 @@ PROPERTIES["C17"] = {
                      bounds="PackageBuilder::add_data (the part of with_file after reading the source)", timeout=900, tier=("quick" if n <= 5 else "thorough"),
                      covers_unsat_ok=["destination accepted", "destination rejected"]) for n in range(0, 7)]
     + [MH("c17_caps_" + n, inputs="capability text of shape " + n, bounds="FileOptionsBuilder::caps", timeout=600, covers_unsat_ok=["capabilities accepted", "capabilities rejected"])
-       for n in ("sym2", "sym3", "chown_sym2", "two")],
-    "bounds": "every destination string of up to 6 characters over {'/', '.', 'a'}; capability text shapes as in C19 (subset)",
-    "outside": "compression levels (consumed by zstd/xz/bzip2 C libraries behind FFI and flate2): not encodable; the metadata setters take any String and store it (no failure path); reading the source file (file system)",
+       for n in ("sym2", "sym3", "chown_sym2", "two")]
+    + [MH("c17_level_" + w, inputs="compression level: every %s value" % ("i32" if w == "zstd" else "u32"), bounds="Compressor::try_from(CompressionWithLevel::%s(level))" % w.capitalize(), timeout=300,
+          covers_unsat_ok=["level accepted", "level rejected"]) for w in ("gzip", "xz", "bzip2", "zstd", "none")],
+    "bounds": "every destination string of up to 6 characters over {'/', '.', 'a'}; capability text shapes as in C19 (subset); every 32-bit compression level for each compressor",
+    "outside": "what the encoders do after construction (C libraries behind FFI): only the level check of their Rust constructors is modelled (contract stubs read from the pinned crate sources, validated against the real constructors on every run); "
+               "the metadata setters take any String and store it (no failure path); reading the source file (file system)",
     "assumptions": A_MIR + ["std::path is modelled (Unix component rules: root, '.', '..', repeated separators); the model is validated on every run against the real builder on 78 concrete destinations",
                             "BTreeMap/BTreeSet membership is modelled, ordering is not (irrelevant for panic-freedom)"],
     "technique": None,
@@ -490,4 +493,5 @@ PROPERTIES["C12"].update(claim="Partial (containment and panic-freedom only): Pa
                          "for every directory name / entry path within the bounds, every path handed to a mutating file-system call is below the target, never through or onto a link an earlier entry created, and the call "
                          "returns Ok or Err. That archived content and permission bits arrive on disk is outside reach.", note=_NOTE_MIR)
 PROPERTIES["C17"].update(claim="Partial: the builder's destination handling (PackageBuilder::add_data) is symbolically executed from MIR for every destination string up to 6 characters over {'/', '.', 'a'}: "
-                         "it returns Ok or InvalidDestinationPath, never panics; FileOptionsBuilder::caps reports invalid capability text as InvalidCapabilities. Compression levels are outside reach (FFI).", note=_NOTE_MIR)
+                         "it returns Ok or InvalidDestinationPath, never panics; FileOptionsBuilder::caps reports invalid capability text as InvalidCapabilities; Compressor::try_from hands the gzip/xz/bzip2 encoder constructors only levels they accept, for every 32-bit level "
+                         "(constructor contracts as stubs; the encoders themselves are FFI and outside reach).", note=_NOTE_MIR)
